@@ -55,4 +55,30 @@ PROPS = {
         rule="events = real calls of the sp<->ext converters, NewExtendedSpatialID + accessors, ConvertExtendedSpatialIDToSpatialIDs, GetVoxelIDfromSpatialID; distinct = distinct (op, window, arguments); non-trivial = non-empty list / h != v for expansion",
         assumptions=["TLC", "window embedding/projection E,P", "TLA+ statement of C10 (C10_*)"],
     ),
+    "C01": dict(
+        level="model_checking",
+        mc=[dict(module="MC_Grid.tla", cfg="MC_Point.cfg", constants="M=2: all lattice points of depth 4 (17 longitudes incl. +180, 15 rows, 33 altitudes incl. +-2^25) + the latitude limits, 9 zoom pairs")],
+        gen=[dict(name="point", module="Gen_Grid.tla", cfg="Gen_Point.cfg", windows={Q: 4, T: 40})],
+        drive=[dict(family="point", n={Q: 10000, T: 100000}, shards={Q: 1, T: 8})],
+        rule="events = real calls of Get(Extended)SpatialIdsOnPoints on lists of lattice points (x and f on/next to cell boundaries, rows strictly inside); distinct = distinct (op, window, points, zooms); non-trivial = non-empty list",
+        assumptions=["TLC", "window embedding/projection E,P", "gamma: inverse Mercator in float64 (harness/lat.go); rows are decided by the model only for points at least a quarter row from a row border", "TLA+ statement of C01 (PointToVoxel, C01_Contains)"],
+    ),
+    "C02": dict(
+        level="model_checking",
+        mc=[dict(module="MC_Grid.tla", cfg="MC_Geom.cfg", constants="M=2: all 294 voxels: vertices = region box, centre round trip, shared faces, tiling")],
+        gen=[dict(name="geom", module="Gen_Grid.tla", cfg="Gen_Geom.cfg", windows={Q: 6, T: 60})],
+        drive=[dict(family="geom", n={Q: 10000, T: 100000}, shards={Q: 1, T: 8})],
+        rule="events = real vertex / centre queries (both string forms) and face pairs (two vertex queries compared bit for bit); distinct = distinct (op, window, id)",
+        assumptions=["TLC", "window embedding/projection E,P", "alpha: returned longitudes/altitudes must be exact lattice values, latitudes within 1e-10 deg + 6e-14 of the row border they name (harness/lat.go)", "TLA+ statement of C02 (Vertices, C02_*)"],
+    ),
+    "C09": dict(
+        level="model_checking",
+        mc=[dict(module="MC_Grid.tla", cfg="MC_Zoom.cfg", constants="M=2: zoom in then out, merge of all descendants (C09_InThenOut, C09_MergeDescendants)"),
+            dict(module="MC_Grid.tla", cfg="MC_Point.cfg", constants="M=2: point lookups nested across all coarser zoom pairs (C09_LookupNested)")],
+        drive=[dict(family="hier", n={Q: 10000, T: 100000}, shards={Q: 1, T: 8}),
+               dict(family="zoom", n={Q: 2000, T: 20000}, shards={Q: 1, T: 4}),
+               dict(family="merge", n={Q: 800, T: 4000}, shards={Q: 1, T: 4})],
+        rule="hier events = (lookup fine, lookup coarse, zoom-out, overlap x2) on arbitrary float64 points, all ordered zoom pairs 0..35; zoom/merge events bind the individual steps; distinct = distinct (op, window, arguments); non-trivial = zooms differ",
+        assumptions=["TLC", "the relations are checked between real results only (no reference value) for arbitrary points; lattice points are checked against PointToVoxel", "TLA+ statement of C09 (C09_*, X_Hier)"],
+    ),
 }
